@@ -218,7 +218,7 @@ def run(run, P):
 
 
 # ---------------------------------------------------------------------------------------------------------------
-VERDICT_FIELDS = ('validate_id_call_back', 'validate_ih_call_back')
+VERDICT_FIELDS = ('validate_id_call_back', 'validate_ih_call_back', 'validate_sni_call_back')
 
 
 def run_psk(run, P):
@@ -242,6 +242,7 @@ def run_psk(run, P):
         if not sites:
             continue
         name = f['name']
+        retaps0 = set(ap(ev2['e']['e']) for b2, ev2 in P.events(f) if ev2['e'].get('k') == 'ret' and 'e' in ev2['e'] and ap(ev2['e']['e']))
         vvars = {v for _e, v, _f in sites}
         for _e, v, fld in sites:
             n += 1
@@ -251,11 +252,12 @@ def run_psk(run, P):
             t = ev['e']
             if t.get('k') == 'ret':
                 return True
-            if t.get('k') == 'asg' and ap(t['l']) in vvars:
+            if t.get('k') == 'asg' and (ap(t['l']) in vvars or ap(t['l']) in retaps0):
                 return True
             return False
-        keys, R = relevance(f, is_rule_event, vvars)
-        R = set(R) | vvars
+        retaps = set(ap(ev2['e']['e']) for b2, ev2 in P.events(f) if ev2['e'].get('k') == 'ret' and 'e' in ev2['e'] and ap(ev2['e']['e']))
+        keys, R = relevance(f, is_rule_event, vvars | retaps)
+        R = set(R) | vvars | retaps
 
         def on_event(ev, env, ctx):
             t = ev['e']
@@ -277,6 +279,19 @@ def run_psk(run, P):
                 K = const_int(t['e'])
                 if K is not None and K < 0:
                     return None
+                if K is None and ap(t['e']):
+                    lo, hi, ex = env.intf(ap(t['e']))
+                    if hi < 0:
+                        return None          # a variable known negative: rejection
+                    if not (lo >= 0):
+                        # value unknown: only the case "verdict known NULL" is judged (a NULL verdict must not be able to return success)
+                        for v in env.ts.get('cb', ()):
+                            if env.nullf(v) == 'Z':
+                                run.oblige('R-PSK-VERDICT', False, '%s:null-verdict-return' % name)
+                                run.violation('R-PSK-VERDICT', name, ev['loc'], 'null-verdict-may-succeed',
+                                              'the validation callback returned NULL on this path, but the value returned (%s) is not known to be an error code: a rejected '
+                                              'identity / hint / server name does not abort the handshake' % short(t['e']), ctx.path())
+                        return None
                 for v in env.ts.get('cb', ()):
                     ok = env.nullf(v) == 'N'
                     run.oblige('R-PSK-VERDICT', ok, '%s:success-return' % name)
@@ -285,6 +300,6 @@ def run_psk(run, P):
                                       'a success return is reached on a path where the validation callback was called and its result is not known to be non-NULL: '
                                       'a rejected identity/hint does not abort the handshake', ctx.path())
             return None
-        ctx = solve(f, Env({'cb': ()}), on_event, None, keys, R, key_fn=lambda e: (e.ts.get('cb'), tuple(e.nullf(v) for v in sorted(vvars))))
+        ctx = solve(f, Env({'cb': ()}), on_event, None, keys, R, key_fn=lambda e: (e.ts.get('cb'), tuple(e.nullf(v) for v in sorted(vvars)), tuple((e.intf(a)[0] >= 0, e.intf(a)[1] < 0) for a in sorted(retaps0))))
         run.stats['psk_solver_steps'] += ctx.steps
     run.require(n >= 2 or run.fixture_mode, 'R-PSK-VERDICT: fewer than 2 identity/hint validation call sites found in the TLS back end')
